@@ -246,11 +246,19 @@ def build(u):
     hp = u.src("proxy_agent/src/common/helpers.rs")
     consts = u.src("proxy_agent/src/common/constants.rs")
     err = u.src("proxy_agent/src/common/error.rs")
+    mh = u.src("proxy_agent_shared/src/misc_helpers.rs")
+    key = u.src("proxy_agent/src/key_keeper/key.rs")
     u.features += ["allocator_api", "sized_hierarchy", "pattern", "const_destruct", "const_trait_impl"]
     for f in ("str_axioms.rs", "ext_types.rs", "std_string.rs", "http.rs"):
         u.raw(open(os.path.join(COMMON, f)).read())
     u.raw_file("spec.rs")
     u.raw_file("deps.rs")
+    with u.mod("proxy_agent_shared"):
+        with u.mod("misc_helpers"):
+            u.take_fn(mh, "get_date_time_rfc1123_string", external_body=True)
+    with u.mod("key_keeper"):
+        with u.mod("key"):
+            u.take(key, "Key", "struct")
     with u.mod("common"):
         with u.mod("error"):
             u.take_ext(err, ["Error", "HyperErrorType", "WireServerErrorType", "KeyErrorType", "AclErrorType", "BpfErrorType"], "vx_ext_error", uses="use http::{uri::InvalidUri, StatusCode};")
@@ -267,7 +275,7 @@ def build(u):
                 contract="""
         ensures r matches Ok(s) ==> s@ == mac_spec(hex_encoded_key@, input_to_sign@),  // @C04.compute_signature.mac_is_hex_hmac_sha256_under_the_key
 """)
-        with u.mod("hyper_client", uses="use super::error::{Error, HyperErrorType};\nuse super::result::Result;\nuse super::{constants, helpers};\nuse http::request::Builder;\nuse http::request::Parts;\nuse http::Method;\nuse hyper::body::Bytes;\nuse hyper::Request;\nuse hyper::Uri;\nuse itertools::Itertools;\nuse std::collections::HashMap;"):
+        with u.mod("hyper_client", uses="use super::error::{Error, HyperErrorType};\nuse super::result::Result;\nuse super::{constants, helpers};\nuse http::request::Builder;\nuse http::request::Parts;\nuse http::Method;\nuse hyper::body::Bytes;\nuse hyper::Request;\nuse hyper::Uri;\nuse itertools::Itertools;\nuse std::collections::HashMap;\nuse crate::proxy_agent_shared::misc_helpers;\nuse http_body_util::combinators::BoxBody;"):
             u.take(hc, "LF", "const")
             hit = hc.item("headers_to_canonicalized_string", "fn")
             if len(hit["loops"]) != 2 or any(l["kind"] != "for" for l in hit["loops"]):
@@ -353,6 +361,15 @@ def build(u):
                 contract="""
         requires builder_parts(*request_builder) matches Some(p) ==> all_values_visible_ascii(hm_view(parts_headers(p))),  // @C13.request_to_sign_input.header_values_visible_ascii
         ensures r matches Ok(d) ==> builder_parts(*request_builder) matches Some(p) && d@ == sig_input_spec(parts_method(p), parts_uri(p), parts_headers(p), opt_bytes(body)),  // @C04.request_to_sign_input.same_canonical_string_of_the_builders_parts
+""")
+            u.take_fn(hc, "host_port_from_uri", external_body=True)
+            u.take_fn(hc, "empty_body", external_body=True, contract="        ensures box_body_bytes(r) == Seq::<u8>::empty(),\n")
+            u.take_fn(hc, "full_body", external_body=True, contract="        ensures box_body_bytes(r) == into_bytes_view(chunk),\n")
+            bit = hc.item("build_request", "fn")
+            u.take_fn(hc, "build_request",
+                extra_attrs="#[verifier::loop_isolation(false)]",
+                contract="""
+        requires pair_ok(key_guid, key),
 """)
             u.take_fn(hc, "should_skip_sig",
                 pre_body="broadcast use axiom_to_string_uri;\nproof { lits_skip(); }",
